@@ -269,6 +269,21 @@ func main() {
 		if op == "gen" {
 			return generic(pay(a[1]))
 		}
+		// the two library calls whose result the decoders index (coq/Model/MessagesPanic.v: split_dot, splitn_nl)
+		if op == "vsplit" {
+			var out []string
+			for _, p := range strings.Split(str(a[1]), ".") {
+				out = append(out, x(p))
+			}
+			return wire.PrintList(out)
+		}
+		if op == "nsplit" {
+			var out []string
+			for _, p := range bytes.SplitN(pay(a[1]), []byte("\n"), 2) {
+				out = append(out, x(string(p)))
+			}
+			return wire.PrintList(out)
+		}
 		kind, msg := op[0], op[1:]
 		dec, ok := decoders[msg]
 		if !ok {
